@@ -18,40 +18,54 @@ serializers = {
     'yml': yaml.dump
 }
 
+def _complex_from_notation(value: dict) -> complex | None:
+    keys = sorted(list(value.keys()))
+    if keys == sorted(['real', 'imag']):
+        return complex(value['real'], value['imag'])
+    if keys == sorted(['abs', 'phase']):
+        if value['abs'] < 0:
+            raise ValueError("abs value may not be negative")
+        return value['abs'] * complex(np.cos(value['phase']), np.sin(value['phase']))
+    if keys == sorted(['abs', 'phase_deg']):
+        if value['abs'] < 0:
+            raise ValueError("abs value may not be negative")
+        phase_rad = np.deg2rad(value['phase_deg'])
+        return value['abs'] * complex(np.cos(phase_rad), np.sin(phase_rad))
+    return None
+
 def dictify_complex_values(data: dict) -> dict:
+    data = dict(data)
     for key, value in data.items():
         if isinstance(value, complex):
             data[key] = {'real': value.real, 'imag': value.imag}
     return data
 
 def undictify_complex_values(data: dict) -> dict:
-    for key, value in data.items():
-        if isinstance(value, dict) and sorted(list(value.keys())) == sorted(['real', 'imag']):
-            data[key] = complex(value['real'], value['imag'])
-        if isinstance(value, dict) and sorted(list(value.keys())) == sorted(['abs', 'phase']):
-            if value['abs'] < 0:
-                raise ValueError("abs value of '{key}' may not be negative")
-            data[key] = value['abs'] * complex(np.cos(value['phase']), np.sin(value['phase']))
-        if isinstance(value, dict) and sorted(list(value.keys())) == sorted(['abs', 'phase_deg']):
-            if value['abs'] < 0:
-                raise ValueError("abs value of '{key}' may not be negative")
-            phase_rad = np.deg2rad(value['phase_deg'])
-            data[key] = value['abs'] * complex(np.cos(phase_rad), np.sin(phase_rad))
-    return data
-
-def dictify_all_complex_values(data: dict) -> dict:
+    data = dict(data)
     for key, value in data.items():
         if isinstance(value, dict):
-            data[key] = dictify_all_complex_values(value)
+            complex_value = _complex_from_notation(value)
+            if complex_value is not None:
+                data[key] = complex_value
     return data
 
-def undictify_all_complex_values(data: dict) -> dict:
-    for key, value in data.items():
-        if isinstance(value, dict):
-            data[key] = undictify_all_complex_values(value)
-        if isinstance(value, list):
-            data[key] = [undictify_all_complex_values(v) for v in value]
-    return undictify_complex_values(data)
+def dictify_all_complex_values(data):
+    if isinstance(data, complex):
+        return {'real': data.real, 'imag': data.imag}
+    if isinstance(data, dict):
+        return {key: dictify_all_complex_values(value) for key, value in data.items()}
+    if isinstance(data, list):
+        return [dictify_all_complex_values(value) for value in data]
+    return data
+
+def undictify_all_complex_values(data):
+    if isinstance(data, dict):
+        data = {key: undictify_all_complex_values(value) for key, value in data.items()}
+        complex_value = _complex_from_notation(data)
+        return data if complex_value is None else complex_value
+    if isinstance(data, list):
+        return [undictify_all_complex_values(value) for value in data]
+    return data
 
 def serialize(data: T, format: str, dict_processor: Callable[[T], dict] = dictify_all_complex_values) -> str:
     serializer = serializers.get(format, None)
